@@ -96,6 +96,17 @@ def worst_kind(rs):
     return max((r.get("kind") or ("write" if r["write"] else "read") for r in rs), key=lambda k: SEVERITY.get(k, 2))
 
 
+def short_func(f):
+    """function name of an access site without package path and without source positions"""
+    f = re.sub(r'@\d+', '', f)
+    f = re.sub(r'\(\*?[\w/]+\.(\w+)\)\.', r'\1.', f)
+    return f.split("/")[-1]
+
+
+def side_funcs(rs):
+    return "+".join(sorted({short_func(s["func"]) for r in rs for s in r["sites"]}))
+
+
 def table_edges(table, ev):
     """conflict edges of the table: (entry, entry, field) -> {"rps": row pairs that share no lock, "locks": "A|B"}"""
     rows = table["rows"]
@@ -114,8 +125,10 @@ def table_edges(table, ev):
         if e1 == e2:
             both = [r for pr in d["rps"] for r in pr]
             d["kinds"] = worst_kind(both) + "|" + worst_kind(both)
+            d["funcs"] = side_funcs(both) + "|" + side_funcs(both)
         else:
             d["kinds"] = worst_kind([pr[0] for pr in d["rps"]]) + "|" + worst_kind([pr[1] for pr in d["rps"]])
+            d["funcs"] = side_funcs([pr[0] for pr in d["rps"]]) + "|" + side_funcs([pr[1] for pr in d["rps"]])
         if e1 == e2:
             both = [r for pr in d["rps"] for r in pr]
             d["locks"] = always_held(both, taken[(e1, f)]) + "|" + always_held(both, taken[(e1, f)])
@@ -313,6 +326,9 @@ def check(run):
 
     edges = table_edges(table, ev)
     run.cov["table"]["conflict_edges_without_common_lock"] = len(edges)
+    known_lines = [k for k in C.load_known() if k.get("property") == PID and k.get("status") == "open"]
+    known_entries = {k["match"].get(x) for k in known_lines for x in ("entry", "against")}
+    merged_groups = sorted(e for e in known_entries if e and e.startswith("informer:") and (e.endswith("&co") or e == "informer:enqueue-only"))
 
     # S: race detector on the real concurrent entry points
     binary = C.go_build("c18", race=True)
@@ -346,20 +362,50 @@ def check(run):
     # every conflict edge: known finding, or violation (with the race report as replay when exhibited)
     edge_report = []
     for (e1, e2, field), d in edges.items():
-        rps, locks, kinds = d["rps"], d["locks"], d["kinds"]
-        edge_report.append({"entry": e1, "against": e2, "field": field, "locks": locks, "kinds": kinds, "exhibited": (e1, e2, field) in confirmed})
-        sig = {"kind": "unprotected-access", "entry": e1, "against": e2, "field": field, "locks": locks, "kinds": kinds}
+        rps, locks, kinds, funcs = d["rps"], d["locks"], d["kinds"], d["funcs"]
+        edge_report.append({"entry": e1, "against": e2, "field": field, "locks": locks, "kinds": kinds, "funcs": funcs, "exhibited": (e1, e2, field) in confirmed})
+        sig = {"kind": "unprotected-access", "entry": e1, "against": e2, "field": field, "locks": locks, "kinds": kinds, "funcs": funcs}
+        # a handler that split off a merged informer group inherits the group's known edges (same field, same
+        # other side, same use, same functions): only what it does on top of the group is new
+        if C.match_known(PID, sig) is None:
+            for grp in merged_groups:
+                alt = dict(sig)
+                if e1.startswith("informer:") and e1 not in known_entries:
+                    alt["entry"] = grp
+                if e2.startswith("informer:") and e2 not in known_entries:
+                    alt["against"] = grp
+                if alt != sig:
+                    a_, b_ = sorted([alt["entry"], alt["against"]])
+                    if (a_, b_) != (alt["entry"], alt["against"]):
+                        fa_, fb_ = funcs.split("|"); la_, lb_ = locks.split("|"); ka_, kb_ = kinds.split("|")
+                        alt.update({"entry": a_, "against": b_, "funcs": fb_ + "|" + fa_, "locks": lb_ + "|" + la_, "kinds": kb_ + "|" + ka_})
+                    if C.match_known(PID, alt) is not None:
+                        sig = alt
+                        break
+        # which accessing functions are new with respect to the recorded finding on the same edge
+        newf = set()
+        for kl in known_lines:
+            m = kl.get("match", {})
+            if (m.get("entry"), m.get("against"), m.get("field")) == (e1, e2, field) and "funcs" in m:
+                ka, kb = (m["funcs"].split("|") + [""])[:2]
+                fa, fb = funcs.split("|")
+                newf = (set(fa.split("+")) - set(ka.split("+"))) | (set(fb.split("+")) - set(kb.split("+")))
+        if newf:
+            has = lambda r: any(short_func(s_["func"]) in newf for s_ in r["sites"])
+            rps = sorted(rps, key=lambda pr: -(has(pr[0]) + has(pr[1])))
         ra, rb = rps[0]
         case = {"entry": e1, "against": e2, "field": field, "locks": locks, "kinds": kinds, "row_pairs": len(rps), "a": side(ra), "b": side(rb),
                 "seed": run.seed * 1000, "iter": n, "race_report": confirmed.get((e1, e2, field))}
         def desc(r):
-            st = r["sites"][0]
+            st = next((s_ for s_ in r["sites"] if short_func(s_["func"]) in newf), r["sites"][0])
             chain = [c.split("/")[-1] for c in (st.get("chain") or [])]
             via = " (call path: %s)" % " > ".join(chain[-6:]) if len(chain) > 1 else ""
             locks = [h["lock"] + ("" if not h["cond"] else " (if %s)" % h["cond"]) for h in r["held"]] or "no lock"
             verb = {"write": "writes", "range": "iterates over", "index": "indexes", "len": "takes len() of", "alias": "hands out"}.get(r.get("kind"), "reads")
-            return "%s %s it at %s:%d%s holding %s" % (r["entry"], verb, st["file"], st["line"], via, locks)
+            return "%s %s it in %s at %s:%d%s holding %s" % (r["entry"], verb, short_func(st["func"]), st["file"], st["line"], via, locks)
         what = "%s: %s; %s -- no common lock held exclusively by either side" % (field, desc(ra), desc(rb))
+        if newf:
+            what = "new accessing function(s) %s on a known edge -- %s" % (sorted(newf), what)
         if (e1, e2, field) in confirmed:
             run.failing(sig, [case], what + "; exhibited by the race detector", theorem="Lockset.Model.protected_except_all on gen/Accesses.v + race harness")
         elif C.match_known(PID, sig) is not None:
@@ -440,7 +486,7 @@ def replay(run, path):
             print("\n".join(confirmed[w].split("\n")[:16]))
         if w in edges or w in confirmed:
             sig = {"kind": "unprotected-access", "entry": w[0], "against": w[1], "field": w[2], "locks": edges[w]["locks"] if w in edges else "?",
-                   "kinds": edges[w]["kinds"] if w in edges else "?"}
+                   "kinds": edges[w]["kinds"] if w in edges else "?", "funcs": edges[w]["funcs"] if w in edges else "?"}
             run.failing(sig, [c for c in rp["cases"] if c.get("field") and edge(c.get("entry"), c.get("against"), c.get("field")) == w],
                         "%s / %s / %s has no common lock in the regenerated table" % w,
                         found_input=(w in confirmed) or C.match_known(PID, sig) is not None,
